@@ -1,6 +1,7 @@
 """C15 - analysis aggregates are conserved however results are split."""
 import gzip
 import json
+import math
 import os
 import shutil
 import zipfile
@@ -89,8 +90,15 @@ def write_layout(root, groups, layout):
     zips = {}
     twinned = set()
     for i, f in enumerate(layout['files']):
-        recs = [record(groups[g]['inputs'], groups[g]['trials'][lo:hi])
-                for g, lo, hi in f['chunks']]
+        recs = []
+        for ch in f['chunks']:
+            g, lo, hi = ch[:3]
+            rec = record(groups[g]['inputs'], groups[g]['trials'][lo:hi])
+            # the same point as different tools write it: a typed literal, or
+            # the value a min:max:step range computes (a few ulps away)
+            for _ in range(ch[3] if len(ch) > 3 else 0):
+                rec['inputs']['error_rate'] = math.nextafter(rec['inputs']['error_rate'], 1.0)
+            recs.append(rec)
         kind = f['kind']
         name = f'res_{i:02d}'
         if f.get('twin') is not None and kind == 'gz':
@@ -318,14 +326,15 @@ def layouts(draw, groups):
             bounds = sorted(bounds + [at])
         for lo, hi in zip(bounds[:-1], bounds[1:]):
             # put the chunk into an existing file or a new one
+            ulps = draw(st.sampled_from([0, 0, 0, 1, 2]))
             if files and draw(st.booleans()):
                 f = draw(st.sampled_from(files))
-                f['chunks'].append([gi, lo, hi])
+                f['chunks'].append([gi, lo, hi, ulps])
             else:
                 files.append({'kind': draw(st.sampled_from(KINDS)), 'zip': draw(st.integers(0, 1)),
                               'bare': draw(st.booleans()),
                               'twin': draw(st.one_of(st.none(), st.integers(0, 7))),
-                              'chunks': [[gi, lo, hi]]})
+                              'chunks': [[gi, lo, hi, ulps]]})
     perm = draw(st.permutations(list(range(len(files)))))
     files = [files[i] for i in perm]
     return {'files': files, 'paths': draw(st.sampled_from(['dir', 'files'])),
